@@ -74,8 +74,9 @@ SPECS["C09"] = {
         {"name": "sub", "pkg": "magic", "harnesses": ["HC09Sub"], "quick_args": fix(maxlen=4), "thorough_args": fix(maxlen=6),
          "quick_shards": 16, "thorough_shards": 64},
         {"name": "alpha", "pkg": "magic", "harnesses": ["HC09Alpha"], "quick_args": fix(maxlen=8), "thorough_args": fix(maxlen=10), "quick_shards": 48, "thorough_shards": 64},
+        {"name": "chain", "pkg": "json", "harnesses": ["HC16Chain"], "quick_args": fix(maxlen=3), "thorough_args": fix(maxlen=5), "quick_shards": 32, "thorough_shards": 64},
     ],
-    "must_reach": ["assert:alpha-whole-json-implies-wellformed", "assert:alpha-prefix-json-implies-viable-prefix", "end", "assert:whole-json-implies-wellformed", "assert:prefix-json-implies-viable-prefix"],
+    "must_reach": ["assert:chain-beyond-cap-not-parsed-completely", "assert:alpha-whole-json-implies-wellformed", "assert:alpha-prefix-json-implies-viable-prefix", "end", "assert:whole-json-implies-wellformed", "assert:prefix-json-implies-viable-prefix"],
     "bounds": {"quick": {"length": "<= 5 (sub-types <= 4), all 256 byte values, limits 0 / len+1 / len"}, "thorough": {"length": "<= 7 (sub-types <= 6)"}},
     "outside": ["documents longer than the bound", "nesting deeper than the bound allows"],
     "assumptions": [],
@@ -106,8 +107,9 @@ SPECS["C16"] = {
         {"name": "pool", "pkg": "json", "harnesses": ["HC16Pool"], "quick_args": fix(maxlen=3), "thorough_args": fix(maxlen=5), "quick_shards": 8, "thorough_shards": 32},
         {"name": "history", "pkg": "json", "harnesses": ["HC16History"], "args": ["-max-instr", "60000000"], "quick_shards": 5, "thorough_shards": 5},
         {"name": "depthcap", "pkg": "json", "harnesses": ["HC08Depth"], "quick_shards": 8, "thorough_shards": 8},
+        {"name": "chain", "pkg": "json", "harnesses": ["HC16Chain"], "quick_args": fix(maxlen=3), "thorough_args": fix(maxlen=5), "quick_shards": 32, "thorough_shards": 64},
     ],
-    "must_reach": ["assert:beyond-cap-is-refused", "assert:cap-survives-deep-history", "assert:bomb-beyond-cap-refused-after-history", "end", "assert:beyond-cap-returns-0", "assert:stack-depth-bounded-by-cap", "assert:accepted-implies-nesting-within-cap", "assert:cap-unchanged-after-parse"],
+    "must_reach": ["assert:chain-stack-depth-bounded-by-cap", "assert:chain-beyond-cap-not-parsed-completely", "assert:beyond-cap-is-refused", "assert:cap-survives-deep-history", "assert:bomb-beyond-cap-refused-after-history", "end", "assert:beyond-cap-returns-0", "assert:stack-depth-bounded-by-cap", "assert:accepted-implies-nesting-within-cap", "assert:cap-unchanged-after-parse"],
     "bounds": {"quick": {"guard": "input <= 3 bytes (all values), lvl and cap arbitrary 62-bit", "depth": "input <= 7 bytes over {[ ] { } \" : a space}, cap 1..3"},
                "thorough": {"guard": "<= 5 bytes", "depth": "<= 10 bytes"}},
     "outside": ["stack bytes per frame (constant by construction)", "inputs longer than the bound for the depth measurement; the guard step itself is for arbitrary level/cap"],
@@ -135,8 +137,9 @@ SPECS["C03"] = {
                    "with an independent first-match walk. Because the walk only learns those booleans, each path stands for all inputs of any length.",
     "units": [
         {"name": "walk", "pkg": "mimetype", "harnesses": ["HC03Walk"], "quick_args": fix(tier=0), "thorough_args": fix(tier=1), "quick_shards": 16, "thorough_shards": 48},
+        {"name": "seq", "pkg": "mimetype", "harnesses": ["HC03Seq"], "quick_shards": 48, "thorough_shards": 64},
     ],
-    "must_reach": ["end", "assert:walk:type", "assert:walk:no-child-matched", "assert:walk:ancestors-consulted-first", "assert:extend:parent"],
+    "must_reach": ["assert:second:extension", "assert:first-result-unaffected-by-second-detection", "end", "assert:walk:type", "assert:walk:no-child-matched", "assert:walk:ancestors-consulted-first", "assert:extend:parent"],
     "bounds": {"quick": {"trees": "built-in tree (179 nodes); +1 Extend at 12 representative nodes; +2 Extends over {root,text,zip,json,ole,first extension}", "inputs": "unbounded (verdict vectors)"},
                "thorough": {"trees": "built-in; +1 Extend at every one of the 179 nodes; +2 Extends as in quick"}},
     "outside": ["more than two Extend calls", "detectors whose verdict differs between calls on the same input (excluded by C04)"],
@@ -325,8 +328,10 @@ SPECS["C06"] = {
     "units": [
         {"name": "pairs", "pkg": "mimetype", "harnesses": ["HC06Pairs"], "args": ["-c06"], "quick_shards": 48, "thorough_shards": 64},
         {"name": "limitflip", "pkg": "mimetype", "harnesses": ["HC06LimitFlip"], "quick_shards": 16, "thorough_shards": 16},
+        {"name": "interleave", "pkg": "mimetype", "harnesses": ["HC06Interleave"], "args": ["-max-instr", "20000000"], "quick_shards": 16, "thorough_shards": 16},
     ],
-    "must_reach": ["end", "assert:result-is-sequential-for-old-or-new-limit"],
+    "must_reach": ["end", "assert:result-is-sequential-for-old-or-new-limit", "assert:no-lost-registration", "assert:registration-visible-to-lookup-after-concurrent-lookup",
+                   "assert:detection-is-sequential-for-old-or-new-limit", "assert:detection-sees-old-or-new-tree", "assert:concurrent-detections-are-sequential"],
     "bounds": {"quick": {"pairs": "all 100 ordered pairs of 10 operations x 5 concrete inputs x alias slice len 0..2, spare capacity 0..1; one prior Extend; rules: (R) lockset race freedom, (A) no read-modify-write of a shared cell across two critical sections",
                          "limitflip": "4 inputs x 36 (old,new) limit pairs, limit changed from inside the first Read"}},
     "outside": ["more than two concurrent operations interacting (argued pairwise)", "the Go memory model below the data-race-free guarantee", "internals of sync (stubbed)",
